@@ -239,9 +239,14 @@ def r2b_visit_semantics(P, rep, ctx):
     vfi = P.func(f"{O}.IH5Group.visit")
     v = F(ctx, vfi)
     okv = False
+    from .c05 import callback_form
+
     for _, rv in v.returns():
         m = M.match("self.visititems(__l)", v.xe(rv)) if rv is not None else None
-        if m is not None and isinstance(m["__l"], ast.Lambda) and len(m["__l"].args.args) == 2 and M.match(f"{vfi.params[1]}({m['__l'].args.args[0].arg})", m["__l"].body) is not None:
+        if m is None:
+            continue
+        ps, body = callback_form(v, m["__l"])
+        if ps is not None and len(ps) == 2 and isinstance(body, ast.AST) and M.match(f"{vfi.params[1]}({ps[0]})", body) is not None:
             okv = True
     rep.check(okv, "C09.R2", vfi.qual, "visit is visititems on the names", vfi.loc(), construct="visit", message="IH5Group.visit is not derived from visititems")
     init = [i for i, v_, b in f.stores("__s") if f.x(v_) in ("list(reversed(self._get_children()))", "self._get_children()[::-1]")]
